@@ -7,7 +7,7 @@
    stop rule; and the burn rate is fuel flow / ground speed only in the regime 0 < fuel flow <= ground speed (at least
    1 m/kg), otherwise the code integrates 0 (zero or negative flow, or more than 1 kg per metre). *)
 From Coq Require Import ZArith Reals List Bool Arith.
-From AV Require Import lib.Num model.C19_Model proofs.C19_Proofs.
+From AV Require Import lib.Num model.C19_Model proofs.C19_Proofs proofs.C19_StopRule.
 Import ListNotations.
 Local Open Scope R_scope.
 
@@ -217,3 +217,22 @@ Theorem C19_fuel_dependent_repaired_steps_are_trapezoids :
     steps_of_update sgr_of ds (@iterate_fd RNum sgr_of ds true new_initial n est n_iter).
 Proof. exact iterate_fd_shift_steps. Qed.
 Print Assumptions C19_fuel_dependent_repaired_steps_are_trapezoids.
+
+(* ---- the stop rule of the backward driver must watch the FREE end ----
+   [loop_cf_end] is the model's backward loop with the 0.01 % test applied to the FINAL mass (which every backward pass
+   re-installs as prescribed) instead of the initial mass.  For every specific-range function, every profile and every
+   number of passes allowed it returns after ONE pass — the requested n_iter is ignored — (1, 2); and a concrete
+   two-point flight shows the free end still moving by 12.5 % when it does (3).  Formal content of seeded/C19-11; the
+   correspondence runs long, heavy constant-final-mass flights with n_iter in {3, 5, 10} and demands that an early return
+   be justified by the free end or by a fixed point. *)
+Theorem C19_stop_rule_on_prescribed_end_ignores_n_iter_refuted :
+  (forall (sgr_of : list R -> list R) (ds : list R) bwrev k mass,
+     loop_cf_end sgr_of ds bwrev mass (last mass 0) (S k) = @update_backward RNum bwrev mass (sgr_of mass) ds) /\
+  (forall (sgr_of : list R -> list R) (ds : list R) bwrev k1 k2 mass,
+     loop_cf_end sgr_of ds bwrev mass (last mass 0) (S k1) = loop_cf_end sgr_of ds bwrev mass (last mass 0) (S k2)) /\
+  (p1_demo = [200; 100] /\ p2_demo = [175; 100] /\
+   loop_cf_end sgr_demo [1000] false p1_demo (last p1_demo 0) 9 = p2_demo /\
+   loop_cf_end sgr_demo [1000] false p1_demo (last p1_demo 0) 1 = p2_demo /\
+   0.01 < @pct_change RNum (hd 0 p2_demo) (hd 0 p1_demo)).
+Proof. exact (conj loop_cf_end_stops_at_once (conj loop_cf_end_ignores_n_iter stop_rule_demo)). Qed.
+Print Assumptions C19_stop_rule_on_prescribed_end_ignores_n_iter_refuted.
